@@ -566,7 +566,7 @@ def main():
             print(json.dumps(w, indent=1)[:3000])
         print('(replay: re-run with VERIF_SEED=%s; the witness id names chunk and index)' % d.get('seed'))
         return 0
-    n = 500 if a.tier == 'quick' else 3000
+    n = 500 if a.tier == 'quick' else 8000
     for r in parallel(worker, [(bindir, i, n) for i in range(32)]):
         rep.merge(r)
     nd = rep.tables.get('signature_checks', {}).get('digests_compared', 0)
